@@ -25,7 +25,12 @@ def gen_abbr(rng):
     return bytes(rng.randrange(1, 256) for _ in range(rng.randrange(3, 6)))
 
 
+INTMAX_NUMS = [b'2147483647', b'2147483648', b'2147483649', b'21474836470', b'21474836480', b'21474836485', b'21474836490', b'21474836495',
+               b'4294967296', b'4294967301', b'42949672965', b'9999999999', b'99999999999999999999', b'214748364', b'2147483640']
+
+
 def gen_num(rng, lo, hi, digits=None):
+    if rng.random() < 0.02: return rng.choice(INTMAX_NUMS)
     v = edge(rng, lo, hi)
     if v < 0: v = 0
     s = b'%d' % v
@@ -93,7 +98,8 @@ def mutate(rng, s):
     if r < 0.95:
         return rng.choice([b':', b'', b',', b'<', b'<>', b'<>0', b'<>0<>', b'<>0<>,0,0', b'EST', b'EST+', b'EST5EDT', b'EST5EDT,', b'EST5EDT,M3',
                            b'EST5EDT,M3.2', b'EST5EDT,M3.2.0', b'EST5EDT,M3.2.0,', b'EST5EDT4', b'EST5EDT4/3', b'EST5EDT,M3/2,M11.1.0', b'EST5EDT,M3.2/2,M11.1.0',
-                           b'EST5EDT,M3.2.0/2', b'EST5EDT/2,M11.1.0', b'EST5EDT/2/3', b'EST2147483648', b'EST99999999999', b'EST5EDT,J0,J365', b'EST5EDT,0,365', b'EST5EDT,J366,366'])
+                           b'EST5EDT,M3.2.0/2', b'EST5EDT/2,M11.1.0', b'EST5EDT/2/3', b'EST2147483648', b'EST99999999999', b'EST21474836485', b'EST5:21474836480', b'EST5EDT,M3.2.0/21474836482,M11.1.0',
+                           b'EST5EDT,M21474836483.2.0,M11.1.0', b'EST5EDT,J21474836481,J300', b'EST5EDT,M3.21474836482.0,M11.1.0', b'EST4294967301', b'EST5EDT,J0,J365', b'EST5EDT,0,365', b'EST5EDT,J366,366'])
     return bytes(rng.randrange(256) for _ in range(rng.randrange(0, 24)))
 
 
